@@ -23,6 +23,8 @@ def op_st():
         st.tuples(st.just("remaining")),
         st.tuples(st.just("adv"), st.sampled_from([1, 1, 2, 4, 16])),
         st.tuples(st.just("adv_win"), st.sampled_from([-1, 0, 0, 1])),  # oldest live grant ages to window (+/- 1 tick)
+        st.tuples(st.just("adv_win_f"), st.sampled_from([-1, 1, -500, 500, -(2**18), 2**18])),  # ... +/- ns .. ms (units of 2**-30 s)
+        st.tuples(st.just("adv_fine"), st.sampled_from([1, 1000, 2**18])),
         st.tuples(st.just("consume_bad"), st.sampled_from([0, -1])),
         st.tuples(st.just("set_max"), st.sampled_from([0, 1, 2, 3, 5, 8, 70])),  # the owner retunes the shared budget at run time
     )
@@ -45,21 +47,29 @@ def check_component(case: dict) -> Verdict:
     multi = False
     refused = False
     boundary = False
+    FINE = 2**24  # model time unit 2**-30 s; exact in doubles
+
+    def now_fine() -> int:
+        return round((clock.t - clock.t0) * 2**30)
+
     try:
         real = Budget(max_retries=case["max"], window_s=g(case["window"]))
-        m = BudgetWindowModel(case["max"], case["window"])
+        m = BudgetWindowModel(case["max"], case["window"] * FINE)
         for i, op in enumerate(case["ops"]):
-            t = clock.rel_ticks()
+            t = now_fine()
             k = op[0]
             if k == "adv":
                 clock.t += g(op[1])
                 continue
-            if k == "adv_win":
+            if k == "adv_fine":
+                clock.t += op[1] / 2**30
+                continue
+            if k in ("adv_win", "adv_win_f"):
                 live = m.live(t)
                 if live:
-                    target = live[0] + m.window + op[1]
+                    target = live[0] + m.window + (op[1] * FINE if k == "adv_win" else op[1])
                     if target > t:
-                        clock.t = clock.t0 + g(target)
+                        clock.t = clock.t0 + target / 2**30
                         boundary = True
                 continue
             if k == "set_max":
@@ -129,6 +139,7 @@ PROFILE = {
     "max_delay_ticks": 8,
     "multi_call": (2, 6),
     "always_fail": True,
+    "falsy_components": 0.3,
 }
 
 
